@@ -32,7 +32,7 @@ try:
     rcb, outb = sh(["/venv/bin/python", f"{V}/tools/baseline.py"], env=dict(os.environ, BASELINE_REPO=wt), timeout=1800)
     meta["pinned_suite"] = outb.strip().splitlines()[:4]
     t0 = time.time()
-    rcc, outc = sh([f"{V}/bin/check", prop], env=dict(os.environ, VERIF_REPO=wt), timeout=3000)
+    rcc, outc = sh([f"{V}/bin/check", prop], env=dict(os.environ, VERIF_REPO=wt, VERIF_OUT=f"/tmp/seedout_{name}"), timeout=3000)
     lines = [l for l in outc.splitlines() if l.startswith("VIOLATION")]
     meta["check"] = {"cmd": f"VERIF_REPO=<worktree with patch> bin/check {prop}", "exit": rcc, "violation_lines": lines,
                      "summary": outc.strip().splitlines()[-1][:300], "wall_s": round(time.time() - t0, 1)}
@@ -58,3 +58,4 @@ try:
 finally:
     subprocess.run(["git", "-C", "/repo", "worktree", "remove", "--force", wt], capture_output=True)
     shutil.rmtree(f"/tmp/seeddemo_{name}", ignore_errors=True)
+    shutil.rmtree(f"/tmp/seedout_{name}", ignore_errors=True)
